@@ -71,10 +71,57 @@ class Result:
         return ok
 
     def as_dict(self):
-        return {'name': self.name, 'obligations': self.obligations, 'discharged': self.discharged, 'trivial': self.trivial,
+        for d in CROSS['disagree']:
+            self.inconclusive.append('second solver disagrees - ' + d)
+        return {'cross': {'checked': CROSS['checked'], 'agree': CROSS['agree'], 'skipped': CROSS['skipped']}, 'name': self.name, 'obligations': self.obligations, 'discharged': self.discharged, 'trivial': self.trivial,
                 'violations': self.violations, 'inconclusive': self.inconclusive, 'samples': self.samples,
                 'kinds': sorted(self.kinds), 'paths': self.paths, 'queries': STATS['queries'] - self._q0,
                 'solver_s': STATS['solver_s'] - self._s0, 'merged_sites': sorted(STATS['merged_sites'])}
+
+
+CROSS = {'done': set(), 'checked': 0, 'agree': 0, 'skipped': 0, 'disagree': []}
+
+
+def cross_check(kind, terms, verdict):
+    """second solver: the first query of every obligation kind in this process is exported to SMT-LIB2 and decided again by
+    the z3 4.8.12 binary; a different verdict makes the run inconclusive, `unknown` / errors / oversize are only counted"""
+    import os
+    import subprocess
+    import tempfile
+    if kind in CROSS['done'] or os.environ.get('VERIF_CROSS', '1') == '0':
+        return
+    CROSS['done'].add(kind)
+    s = z3.Solver()
+    s.add(*terms)
+    try:
+        text = s.to_smt2()
+    except Exception:
+        CROSS['skipped'] += 1
+        return
+    if len(text) > 3_000_000:
+        CROSS['skipped'] += 1
+        return
+    with tempfile.NamedTemporaryFile('w', suffix='.smt2', delete=False, dir=os.environ.get('VERIF_TMP', '/var/tmp')) as f:
+        f.write(text)
+        path = f.name
+    try:
+        out = subprocess.run(['/usr/bin/z3', '-T:30', path], capture_output=True, text=True, timeout=45).stdout
+    except Exception:
+        out = 'timeout'
+    finally:
+        try:
+            os.unlink(path)
+        except OSError:
+            pass
+    first = out.strip().split('\n')[0] if out.strip() else ''
+    if '(error' in out or first not in ('sat', 'unsat'):
+        CROSS['skipped'] += 1
+        return
+    CROSS['checked'] += 1
+    if first == verdict:
+        CROSS['agree'] += 1
+    else:
+        CROSS['disagree'].append(f'{kind}: z3 5.1.0 says {verdict}, z3 4.8.12 says {first}')
 
 
 class Batch:
@@ -147,6 +194,12 @@ class Batch:
             part = items[lo:lo + chunk]
             r, m = check(self.pc + [z3.Or(*[z3.Not(t) for _, _, t in part])] if len(part) > 1 else self.pc + [z3.Not(part[0][2])],
                          self.timeout_ms)
+            if r in ('sat', 'unsat'):
+                newkinds = sorted({k for k, _, _ in part} - CROSS['done'])
+                if newkinds:
+                    cross_check(newkinds[0], self.pc + ([z3.Or(*[z3.Not(t) for _, _, t in part])] if len(part) > 1 else [z3.Not(part[0][2])]), r)
+                    for k in newkinds[1:]:
+                        CROSS['done'].add(k)
             if r == 'unsat':
                 self.res.discharged += len(part)
                 continue
